@@ -49,7 +49,8 @@ def finalize_uses_external(ctx, rule):
         return
     rng_p = rng_idx[0]
     fins = [e for e in evs if e.kind == 'finalize']
-    rep.floor(rule, 'finalize events in the prover trace', len(fins), 5)
+    # one per rebuild point of the protocol: after the statement, after A, per round, after A1/B
+    rep.floor(rule, 'finalize events in the prover trace', len(fins), 4)
     for n, e in enumerate(fins):
         a = strip(e.args[1]) if len(e.args) > 1 else None
         ext = a is not None and a.tag == 'param' and a[1] == prover.key and a[2] == rng_p
@@ -91,7 +92,7 @@ def run(ctx):
                   'draw #%d takes %s' % (n, 'the external RNG directly' if direct else 'an RNG that is not built from the transcript: ' + short(e.args[0], 200)),
                   ctx.where(e.body, e.bb))
     fins = [e for e in evs if e.kind == 'finalize']
-    rep.floor('R-C14-1', 'finalize events in the prover trace', len(fins), 5)
+    rep.floor('R-C14-1', 'finalize events in the prover trace', len(fins), 4)
     for n, e in enumerate(fins):
         rep.check(len(e.args) > 1 and is_ext(e.args[1]), 'R-C14-1', 'R-C14-1/finalize/%02d' % n, 'finalize #%d mixes in the caller\'s external RNG' % n,
                   'finalize #%d is given %s instead of the caller\'s RNG' % (n, short(e.args[1], 100) if len(e.args) > 1 else None), ctx.where(e.body, e.bb))
@@ -143,40 +144,47 @@ def run(ctx):
     # ---- R-C14-3 ---------------------------------------------------------------------------------------
     tparams = [i for i in range(1, prover.argc + 1) if 'merlin::Transcript' in prover.local_ty(i)]
     for n, e in enumerate(fins):
-        chain = strip(e.args[0])
-        shape = []
-        t = chain
+        chain0 = strip(e.args[0])
+        # `let b = match bytes { Some(w) => b.rekey(w), None => b }; b.finalize(rng)`: one site, two alternative receivers
+        alts = [strip(x) for x in chain0.args] if chain0.tag == 'phi' else [chain0]
         ok = True
-        while t.tag == 'call':
-            nm = t[1].split('::')[-1]
-            shape.append(nm)
-            if nm == 'build_rng':
-                root = wire.root_of(t[2][0])
-                ok = ok and root.tag == 'param' and root[1] == prover.key and root[2] in tparams
-                break
-            if not t[2]:
-                break
-            t = strip(t[2][0])
-        good_shape = shape in (['rekey_with_witness_bytes', 'build_rng'], ['build_rng'])
-        cloned = any(x.tag == 'call' and x[1].endswith('Transcript::clone') for x in walk(chain))
+        shapes = []
+        cloned = False
+        for chain in alts:
+            shape = []
+            t = chain
+            while t.tag == 'call':
+                nm = t[1].split('::')[-1]
+                shape.append(nm)
+                if nm == 'build_rng':
+                    root = wire.root_of(t[2][0])
+                    ok = ok and root.tag == 'param' and root[1] == prover.key and root[2] in tparams
+                    break
+                if not t[2]:
+                    break
+                t = strip(t[2][0])
+            shapes.append(shape)
+            cloned = cloned or any(x.tag == 'call' and x[1].endswith('Transcript::clone') for x in walk(chain))
+        good_shape = all(shape in (['rekey_with_witness_bytes', 'build_rng'], ['build_rng']) for shape in shapes)
         rep.check(ok and good_shape and not cloned, 'R-C14-3', 'R-C14-3/finalize/%02d' % n,
-                  'finalize #%d = finalize(%s of the live caller transcript, external)' % (n, '∘'.join(shape)),
-                  'finalize #%d has shape %s over %s%s' % (n, shape, short(chain, 160), ' (a cloned transcript)' if cloned else ''), ctx.where(e.body, e.bb))
+                  'finalize #%d = finalize(%s of the live caller transcript, external)' % (n, ' | '.join('∘'.join(sh) for sh in shapes)),
+                  'finalize #%d has shape %s over %s%s' % (n, shapes, short(chain0, 160), ' (a cloned transcript)' if cloned else ''), ctx.where(e.body, e.bb))
     # the un-keyed finalize is only reachable when the witness bytes are None
     for (b, bb, t) in fin_sites:
         if b.key not in {x.key for x in ctx.facts.reachable_from([prover])}:
             continue
-        a0 = strip(ctx.args(b, bb)[0])
-        keyed = a0.tag == 'call' and a0[1].endswith('rekey_with_witness_bytes')
-        pcs = ctx.path_conditions(b, bb)
-        on_none = any(c.tag == 'discr' and '1' not in arms and set(arms) <= {'0', 'otherwise'} and (ctx.discr_type(b, b.block[sw]['term']['discr']) or '').startswith('std::option::Option<') for (sw, c, arms, tg) in pcs)
-        on_some = any(c.tag == 'discr' and arms == ('1',) and (ctx.discr_type(b, b.block[sw]['term']['discr']) or '').startswith('std::option::Option<') for (sw, c, arms, tg) in pcs)
-        key = 'R-C14-3/%s/%s' % (b.path, 'keyed' if keyed else 'unkeyed')
-        if keyed:
-            rep.check(on_some, 'R-C14-3', key, 'the rekeyed construction is used whenever witness bytes are present', 'rekeyed finalize is not on the Some(bytes) branch', ctx.where(b, bb))
-        else:
-            rep.check(on_none, 'R-C14-3', key, 'the un-keyed construction is only reachable when there are no witness bytes (verifier)',
-                      'an un-keyed finalize is reachable even when witness bytes exist', ctx.where(b, bb))
+        for a0, dbb in ctx.alternatives(b, bb, TERM_IDX, t['args'][0]):
+            a0 = strip(a0)
+            keyed = a0.tag == 'call' and a0[1].endswith('rekey_with_witness_bytes')
+            pcs = ctx.path_conditions(b, bb) + (ctx.path_conditions(b, dbb) if dbb != bb else [])
+            on_none = any(c.tag == 'discr' and '1' not in arms and set(arms) <= {'0', 'otherwise'} and (ctx.discr_type(b, b.block[sw]['term']['discr']) or '').startswith('std::option::Option<') for (sw, c, arms, tg) in pcs)
+            on_some = any(c.tag == 'discr' and arms == ('1',) and (ctx.discr_type(b, b.block[sw]['term']['discr']) or '').startswith('std::option::Option<') for (sw, c, arms, tg) in pcs)
+            key = 'R-C14-3/%s/%s' % (b.path, 'keyed' if keyed else 'unkeyed')
+            if keyed:
+                rep.check(on_some, 'R-C14-3', key, 'the rekeyed construction is used whenever witness bytes are present', 'rekeyed finalize is not on the Some(bytes) branch', ctx.where(b, bb))
+            else:
+                rep.check(on_none, 'R-C14-3', key, 'the un-keyed construction is only reachable when there are no witness bytes (verifier)',
+                          'an un-keyed finalize is reachable even when witness bytes exist', ctx.where(b, bb))
 
     # ---- R-C14-4 ---------------------------------------------------------------------------------------
     mine = [e for e in evs if e.kind in ('append', 'append_u64', 'challenge', 'finalize')]
